@@ -319,6 +319,15 @@ def r_cells(model, rep):
                 and not T.guard_tests(e.ev)
             msg = "every image of self.images[variant][arch] must be serialised into payload/images/<same variant>/<same arch>"
     rep.ob("R-CELLS", "Images.serialize:cells", ok, site=cx.site(f.node), msg="" if ok else msg)
+    # a (variant, arch) entry appears in the output only together with an image: the reader creates cells only by adding
+    # images, so an empty list written for an empty cell (left behind by a refused add, say) is gone after a reload and the
+    # second dump differs
+    empties = [e for e in emits if e.kind == "store" and len(e.path) == 4 and e.path[:2] == [("const", "payload"), ("const", "images")]
+               and len(e.loops) < 3 and not any(T.contains(g[0], lambda x: x[0] == "sub" and T.contains(x, lambda y: y == ("attr", S, "images")))
+                                                for g in e.ev.guards)]
+    rep.ob("R-CELLS", "Images.serialize:no-empty-cells", not empties, site=cx.site(empties[0].ev.lineno if empties else f.node),
+           msg="" if not empties else "payload/images/<variant>/<arch> is created once per cell, images or not: an empty cell is written "
+                                      "as [] but not re-created on load")
     lids = set(l[0] for e in n for l in e.loops)
     bad = [ev for ev in cx.events if ev.kind in ("break", "continue", "return") and set(l[0] for l in ev.loops) & lids]
     rep.ob("R-CELLS", "Images.serialize:no-early-exit", not bad, site=cx.site(f.node),
